@@ -208,8 +208,8 @@ fn run_cli(c: &CliCase, strace: bool) -> Result<Observed, String> {
     } else {
         None
     };
-    let mut out = child.stdout.take().unwrap();
-    let mut err = child.stderr.take().unwrap();
+    let out = child.stdout.take().unwrap();
+    let err = child.stderr.take().unwrap();
     // programs are small: read both pipes from helper threads, watch the clock here
     let t_out = std::thread::spawn(move || {
         let mut v = vec![];
